@@ -14,7 +14,6 @@ Reading guide
 -/
 import EPV.Lemmas.SeqFunsLaws
 import EPV.Lemmas.SeqFunsLazy
-import EPV.Lemmas.SeqFunsSumFree
 namespace EPV.C08
 open EPV.Seq
 
@@ -84,50 +83,51 @@ xs:string, numbers after promotion). -/
 theorem distinct_values_eq_spec (xs : Seq) : distinctValues xs = Spec.distinctValues xs :=
   distinctValues_eq xs
 
-/-- fn:sum, one- and two-argument form: type dispatch, integer / double result, NaN, FORG0006. -/
-theorem sum_eq_spec (xs : Seq) (zero : Option Seq) : fnSum xs zero = Spec.fnSum Spec.pySum xs zero :=
-  fnSum_eq xs zero
+/-- fn:sum, one- and two-argument form, on arbitrary items: xs:untypedAtomic items are cast to
+xs:double (FORG0001 for an invalid one), nodes through their string value, then type dispatch,
+exact integer / decimal sum, xs:double additions in the order of the F&O definition
+(`$c[1] + fn:sum(subsequence($c, 2))`, `Spec.foSum`), NaN, FORG0006.  Full strength since fix
+F08q (the code no longer uses the compensated `sum()` of CPython). -/
+theorem sum_eq_spec (doc : List String) (xs : Seq) (zero : Option Seq) :
+    fnSum doc xs zero = Spec.fnSum Spec.foSum doc xs zero := fnSum_eq doc xs zero
 
-/-- fn:avg: dispatch, exact decimal sum, 28-digit decimal division, double division; the sum of
-doubles is CPython's compensated sum (`Spec.pySum`). -/
-theorem avg_eq_spec (xs : Seq) : fnAvg xs = Spec.fnAvg Spec.pySum xs := fnAvg_eq xs
+/-- fn:avg on arbitrary items (atomization, cast of xs:untypedAtomic, booleans rejected):
+exact decimal sum, 28-digit decimal division, integers promoted to xs:double before the
+xs:double additions of F&O, double division. -/
+theorem avg_eq_spec (doc : List String) (xs : Seq) : fnAvg doc xs = Spec.fnAvg Spec.foSum doc xs :=
+  fnAvg_eq doc xs
 
-/-- PARTIAL (known finding F08q).  fn:sum equals the F&O definition (`$c[1] + fn:sum(…)`, every
-addition rounded) when the compensated sum of the promoted values equals that fold.  The full
-statement is false: `sum_compensated_differs`. -/
-theorem sum_eq_fo_partial (xs : Seq) (zero : Option Seq) (h : Spec.sumAgrees xs = true) :
-    fnSum xs zero = Spec.fnSum Spec.foSum xs zero := by
-  rw [fnSum_eq]
-  have h' : Spec.pySum.sumD (xs.map Spec.toDouble) = Spec.foSum.sumD (xs.map Spec.toDouble) := by
-    simpa [Spec.sumAgrees] using h
-  unfold Spec.fnSum
-  simp only [h']
-
-/-- the same for fn:avg -/
-theorem avg_eq_fo_partial (xs : Seq) (h : Spec.avgAgrees xs = true) :
-    fnAvg xs = Spec.fnAvg Spec.foSum xs := by
-  rw [fnAvg_eq]
-  have h' : Spec.pySum.avgD xs = Spec.foSum.avgD xs := by simpa [Spec.avgAgrees] using h
-  unfold Spec.fnAvg
-  simp only [h']
+/-- the loop `result = numbers[-1]; for number in reversed(numbers[:-1]): result = number + result`
+is the right fold of the F&O definition, for every list of doubles -/
+theorem sum_loop_eq_fo_fold (l : List D) : sumRight l = Spec.sumDoubles l := sumRight_eq l
 
 set_option maxRecDepth 8000 in
-/-- F08q witness: `sum((1e0, 1e0, 9007199254740992e0))` — the compensated sum is exact
-(2^53 + 2), the F&O fold `1 + (1 + 2^53)` loses both ones. -/
-theorem sum_compensated_differs :
-    let xs : Seq := [.dbl (.fin 1 0), .dbl (.fin 1 0), .dbl (.fin 9007199254740992 0)]
-    Spec.sumAgrees xs = false ∧ fnSum xs none = .ok [.dbl (.fin 9007199254740994 0)] ∧
-      Spec.fnSum Spec.foSum xs none = .ok [.dbl (.fin 9007199254740992 0)] := ⟨by decide, by rfl, by rfl⟩
+/-- test (F08q, fixed): `sum((1e0, 1e0, 9007199254740992e0))` is `1 + (1 + 2^53)` = 2^53 with
+every addition rounded, not the exact 2^53 + 2 of a compensated summation; and
+`avg((9007199254740993, 1e0))` promotes the integer first. -/
+example :
+    fnSum [] [.dbl (.fin 1 0), .dbl (.fin 1 0), .dbl (.fin 9007199254740992 0)] none
+      = .ok [.dbl (.fin 9007199254740992 0)] ∧
+    fnAvg [] [.int 9007199254740993, .dbl (.fin 1 0)] = .ok [.dbl (.fin 4503599627370496 0)] :=
+  ⟨by rfl, by rfl⟩
 
 set_option maxRecDepth 8000 in
-/-- the hypothesis of the partial theorems holds on a non-trivial input: `(1.5e0, 2, 0.25)` -/
-example : Spec.sumAgrees [.dbl (.fin 3 1), .int 2, .dec 25 2] = true ∧
-    Spec.avgAgrees [.dbl (.fin 3 1), .int 2, .dec 25 2] = true := by decide
+/-- test (F08v, fixed; F08u): `sum((xs:untypedAtomic(' 1.5 '), 2))` = 3.5e0 (7881299347898368 / 2^51), an invalid
+xs:untypedAtomic gives FORG0001, a node with a valid string value is cast, a node with an
+invalid one is outside the modelled fragment (`sumNodeInvalid`, known finding F08u). -/
+example :
+    fnSum [] [.untyped " 1.5 ", .int 2] none = .ok [.dbl (.fin 7881299347898368 51)] ∧
+    fnSum [] [.untyped "x", .int 2] none = .error .FORG0001 ∧
+    fnSum ["2", "abc"] [.node 0, .int 2] none = .ok [.dbl (.fin 4503599627370496 50)] ∧
+    fnSum ["2", "abc"] [.node 1, .int 2] none = .error .UNSUPPORTED ∧
+    Spec.sumNodeInvalid ["2", "abc"] [.node 1, .int 2] = true ∧
+    Spec.sumNodeInvalid ["2", "abc"] [.node 0, .int 2] = false := ⟨by rfl, by rfl, by rfl, by rfl, by rfl, by rfl⟩
 
-/-- fn:min / fn:max: dispatch on strings / booleans / integers / doubles, NaN, FORG0006 for
-mixed kinds; Python's `min`/`max` pick the same element as the specification's fold. -/
-theorem min_max_eq_spec (isMax : Bool) (xs : Seq) : fnMinMax isMax xs = Spec.fnMinMax isMax xs :=
-  fnMinMax_eq isMax xs
+/-- fn:min / fn:max on arbitrary items (atomization, cast of xs:untypedAtomic): dispatch on
+strings / booleans / integers / decimals / doubles, NaN, FORG0006 for mixed kinds; Python's
+`min`/`max` pick the same element as the specification's fold. -/
+theorem min_max_eq_spec (doc : List String) (isMax : Bool) (xs : Seq) :
+    fnMinMax doc isMax xs = Spec.fnMinMax doc isMax xs := fnMinMax_eq doc isMax xs
 
 /-- fn:string-join -/
 theorem string_join_eq_spec (doc : List String) (xs : Seq) (sep : Option Seq) :
@@ -143,8 +143,8 @@ theorem predicate_eq_spec (pos : Nat) (v : Seq) : predicateKeeps pos v = Spec.pr
 
 /-- all one-, two-, three-argument functions at once, including argument conversion errors -/
 theorem apply_eq_spec :
-    (∀ doc f v, applyFn1 doc f v = Spec.applyFn1 Spec.pySum doc f v) ∧
-    (∀ doc f a b, applyFn2 doc f a b = Spec.applyFn2 Spec.pySum doc f a b) ∧
+    (∀ doc f v, applyFn1 doc f v = Spec.applyFn1 Spec.foSum doc f v) ∧
+    (∀ doc f a b, applyFn2 doc f a b = Spec.applyFn2 Spec.foSum doc f a b) ∧
     (∀ f a b c, applyFn3 f a b c = Spec.applyFn3 f a b c) :=
   ⟨applyFn1_eq, applyFn2_eq, applyFn3_eq⟩
 
@@ -175,16 +175,15 @@ the modelled functions, value comparisons, `and` / `or`, `+ - *`, `if`, over ite
 integers, decimals, doubles (NaN, ±INF, ±0), strings, booleans, untypedAtomic values and nodes,
 and for every dynamic context: the evaluator transcribed from the token `select` methods returns
 the value (or error) of the XPath semantics.  Nested compositions — predicate in `for` in
-predicate — included.  The semantics is taken with `Spec.pySum`: the sum of a sequence of doubles
-in fn:sum / fn:avg is CPython's compensated sum (finding F08q; `eval_eq_sem_fo` removes it for
-expressions without fn:sum / fn:avg). -/
-theorem eval_eq_sem (e : Expr) (c : Ctx) : eval e c = Spec.sem Spec.pySum e c := EPV.Seq.eval_eq_sem e c
+predicate — included.  `Spec.foSum` is the F&O definition of the sum of xs:double values (the
+only summation in use since fix F08q). -/
+theorem eval_eq_sem (e : Expr) (c : Ctx) : eval e c = Spec.sem Spec.foSum e c := EPV.Seq.eval_eq_sem e c
 
 /-- PARTIAL (known finding F08b).  Parsing plus evaluation agrees with the semantics when no
 clause variable's name occurs in its own range expression.  The full statement
 `parseEval e c = Spec.sem e c` is false: see `loop_var_check_rejects_valid`. -/
 theorem parse_eval_eq_sem_partial (e : Expr) (c : Ctx) (h : e.loopVarInRange = false) :
-    parseEval e c = Spec.sem Spec.pySum e c := by
+    parseEval e c = Spec.sem Spec.foSum e c := by
   simp [parseEval, h, EPV.Seq.eval_eq_sem]
 
 /-- F08b witness: `for $v0 in $v0 return $v0` with `$v0 := (3, 1, 2)` in scope is rejected with
@@ -242,7 +241,7 @@ variables, dependent ranges), every test expression and every context — value 
 as computed by the implementation's evaluator. -/
 theorem every_not_some_not (bs : Binds) (t : Expr) (c : Ctx) :
     eval (.everyE bs t) c = eval (.fn1 .not_ (.someE bs (.fn1 .not_ t))) c := by
-  rw [EPV.Seq.eval_eq_sem, EPV.Seq.eval_eq_sem]; exact sem_every_not_some_not Spec.pySum bs t c
+  rw [EPV.Seq.eval_eq_sem, EPV.Seq.eval_eq_sem]; exact sem_every_not_some_not Spec.foSum bs t c
 
 /-- a clause with several variables is the nesting of single-variable clauses:
 `for $x in E1, $y in E2… return R` = `for $x in E1 return (for $y in E2… return R)` -/
@@ -256,13 +255,13 @@ theorem some_multi_eq_nested (x : Nat) (e : Expr) (rest : Binds) (t : Expr) (c :
     eval (.someE (.cons x e rest) t) c = eval (.someE (.one x e) (.someE rest t)) c := by
   rw [EPV.Seq.eval_eq_sem, EPV.Seq.eval_eq_sem]
   simp only [Spec.sem, Spec.semSome]
-  cases Spec.sem Spec.pySum e c with
+  cases Spec.sem Spec.foSum e c with
   | error err => rfl
   | ok s =>
     simp only [bind, Except.bind]
     congr 2
     funext v
-    generalize Spec.semSome Spec.pySum rest (Spec.bind1 c x v) _ = r
+    generalize Spec.semSome Spec.foSum rest (Spec.bind1 c x v) _ = r
     cases r with
     | error err => rfl
     | ok b => cases b <;> rfl
@@ -295,7 +294,7 @@ theorem predicate_position (S : Expr) (n : Int) (c : Ctx) :
     eval (.filter S (.lit (.int n))) c = eval (.filter S (.cmp .eq .position (.lit (.int n)))) c := by
   rw [EPV.Seq.eval_eq_sem, EPV.Seq.eval_eq_sem]
   simp only [Spec.sem]
-  cases Spec.sem Spec.pySum S c with
+  cases Spec.sem Spec.foSum S c with
   | error e => rfl
   | ok s =>
     simp only [bind, Except.bind]
@@ -306,7 +305,7 @@ theorem predicate_last (S : Expr) (c : Ctx) :
     eval (.filter S .last) c = (eval S c).map fun s => s.drop (s.length - 1) := by
   rw [EPV.Seq.eval_eq_sem, EPV.Seq.eval_eq_sem]
   simp only [Spec.sem]
-  cases Spec.sem Spec.pySum S c with
+  cases Spec.sem Spec.foSum S c with
   | error e => rfl
   | ok s =>
     simp only [bind, Except.bind, Spec.predicateTruth, Spec.kind, beq_self_eq_true, if_true, Spec.exact,
@@ -339,20 +338,10 @@ theorem distinct_values_constraints (xs : Seq) (hatom : ∀ z ∈ xs, Spec.kind 
 /-- fn:max on a non-empty sequence of integers returns an item of the sequence that is
 greater than or equal to every item -/
 theorem max_integers (n : Int) (ns : List Int) :
-    ∃ m, fnMinMax true ((n :: ns).map Atom.int) = .ok [.int m] ∧ m ∈ n :: ns ∧ ∀ y ∈ n :: ns, y ≤ m := by
-  exact ⟨Spec.extremum (fun x y => decide (x < y)) true n ns, fnMinMax_ints n ns, extremum_int_max n ns⟩
+    ∃ m, fnMinMax [] true ((n :: ns).map Atom.int) = .ok [.int m] ∧ m ∈ n :: ns ∧ ∀ y ∈ n :: ns, y ≤ m := by
+  exact ⟨Spec.extremum (fun x y => decide (x < y)) true n ns, fnMinMax_ints [] n ns, extremum_int_max n ns⟩
 
-/-! ## the F&O summation, and the outcomes that XPath permits -/
-
-/-- For expressions without fn:sum / fn:avg the evaluator equals the semantics in the plain F&O
-reading (no dependence on the summation algorithm). -/
-theorem eval_eq_sem_fo (e : Expr) (c : Ctx) (h : Spec.usesSum e = false) :
-    eval e c = Spec.sem Spec.foSum e c := by
-  rw [EPV.Seq.eval_eq_sem]; exact Spec.sem_congr Spec.pySum Spec.foSum e c h
-
-/-- test: the hypothesis holds for `for $v1 in $v0 return count(($v1, 1.5))` -/
-example : Spec.usesSum (.forE (.one 1 (.var 0)) (.fn1 .count (.comma (.var 1) (.lit (.dec 15 1))))) = false := by
-  decide
+/-! ## the outcomes that XPath permits -/
 
 /-- When the strict left-to-right semantics yields a value, the laziest evaluation that XPath
 §2.3.4 permits yields the same value: on such inputs exactly one value is permitted. -/
@@ -369,8 +358,8 @@ theorem strict_outcome_permitted (sm : Spec.Summation) (e : Expr) (c : Ctx) :
   | error x => exact Spec.sem_error_mem_codes sm e c x h
 
 /-- The outcome of the evaluator (the transcribed implementation) is always a permitted one. -/
-theorem model_outcome_permitted (e : Expr) (c : Ctx) : Spec.Permitted Spec.pySum e c (eval e c) := by
-  rw [EPV.Seq.eval_eq_sem]; exact strict_outcome_permitted Spec.pySum e c
+theorem model_outcome_permitted (e : Expr) (c : Ctx) : Spec.Permitted Spec.foSum e c (eval e c) := by
+  rw [EPV.Seq.eval_eq_sem]; exact strict_outcome_permitted Spec.foSum e c
 
 /-- If no subexpression can raise an error, the only permitted outcome is the value of the
 list model. -/
@@ -442,7 +431,7 @@ theorem subsequence_equiv_filter_expr (S : Expr) (a b : D) (c : Ctx)
   rw [EPV.Seq.eval_eq_sem, EPV.Seq.eval_eq_sem]
   rw [EPV.Seq.eval_eq_sem] at hlen
   simp only [Spec.sem, bind, Except.bind]
-  cases hs : Spec.sem Spec.pySum S c with
+  cases hs : Spec.sem Spec.foSum S c with
   | error e => rfl
   | ok s =>
     have hl := hlen s hs
@@ -452,7 +441,7 @@ theorem subsequence_equiv_filter_expr (S : Expr) (a b : D) (c : Ctx)
         (by
           intro t ht
           have hp : t.2 ≤ 2 ^ 53 := Nat.le_trans (positions_le s t ht) hl
-          rw [sem_subsequencePredicate Spec.pySum a b _ hp]
+          rw [sem_subsequencePredicate Spec.foSum a b _ hp]
           simp [Spec.predicateTruth, Spec.kind, Spec.ebv])]
     rw [keepWhere_pure]
     rfl
